@@ -28,7 +28,7 @@ ASSUMPTIONS = [
     "clauses about nodes inserted relative to a cursor apply only while the cursor's current node is live",
     "after sort() every node counts as touched (sort re-links all nodes)",
 ]
-BUDGET = {"quick": (16, 600), "thorough": (16, 10000)}
+BUDGET = {"quick": (16, 1500), "thorough": (16, 25000)}
 
 
 def strategy(tier, phase):
